@@ -443,14 +443,16 @@ PROPS = {
         "rule": "seeded mini-gringo programs (1-4 rules, term depth 0-2, all six operators incl. / \\ .., all three head kinds, all signs and relations, "
                 "variable pool containing I J K Q R Z Z1 V V1 V2 N0... so that fresh-name choices collide) + corpus/programs.txt (incl. the usize-overflow witness); "
                 "Program::tau_star vs Lean `tauStar` (+ panic predicate), exact theory equality",
-        "level_text": "Partial: val_denotes_values proves for every term (all operators, nesting) that val_t(Z) holds iff Z's value is a value of t in the reference "
-                      "semantics (multi-valued intervals, partial division/modulo, arithmetic undefined on non-integers) under the decidable name-freshness facts ValFreshOK; "
-                      "the literal/rule/program level (TauStarCorrect) is stated, not yet proved; tau_star is tied to the model by exact correspondence.",
+        "level_text": "Full for the model: tau_star_correct - for every program whose global-variable index arithmetic does not overflow (globalsPanic = false; the overflow is the C16 known finding), "
+                      "every HT interpretation (H subset T not even needed), world and assignment: the interpretation satisfies every formula of tau_star(P) iff it satisfies every rule of P in the "
+                      "reference semantics (value sets with multi-valued intervals, partial division/modulo, arithmetic undefined on non-integers; comparisons; not / not not; choice heads; constraints). "
+                      "Proved level by level: val (term induction; freshness of I,J,K,Q,R proved by pigeonhole + first-letter argument, no premise left), tau_b (fresh Z names), tau_star_rule (three head kinds, "
+                      "global V<n> variables fresh for the whole program via the digit round trip of toString), program. stable_iff_equilibrium: stable models with input facts are exactly the equilibrium models of the theory.",
         "level_note": PROOF_NOTE + " Semantics/Asp.lean (reference semantics of mini-gringo: division only for positive divisors, as the source documents) is part of the specification.",
-        "technique": "Lean 4 proof (induction on terms, integer-sorted binders cannot capture general-sorted program variables) + differential correspondence",
-        "design_ref": "DESIGN.md 6/C01",
+        "technique": "Lean 4 proof (induction on terms, body atoms, rules, programs; integer-sorted binders cannot capture general-sorted program variables; fresh names by pigeonhole) + differential correspondence",
+        "design_ref": "DESIGN.md 0.3, 6/C01",
         "trusted_base": COMMON_TRUST + ["Semantics/Asp.lean reference semantics"],
-        "assumptions": COMMON_ASSUME + ["ValFreshOK (decidable freshness of the chosen names I,J,K,Q,R) is a hypothesis of the key lemma; it is checked by kernel evaluation on examples and by the correspondence of fresh-name choices"],
+        "assumptions": COMMON_ASSUME + ["globalsPanic = false (no usize overflow of the fresh global-variable indices) is a hypothesis of tau_star_correct; the overflowing input is reported separately (C16 known finding)"],
     },
     "C03": {
         "suites": [("strong", 400, 8000)],
